@@ -482,6 +482,19 @@ def run(ctx):
         if e["property"] == "C08" and e["status"] == "fixed" and isinstance(c, dict) and c.get("kind") in ("billing", "subdaily", "daily"):
             one_case(c, res, sigs, lines, metas)
             res["hist"]["corpus"] = res["hist"].get("corpus", 0) + 1
+    # a portfolio processed one meter after the other in one process: the same instants and the same length in a zone without
+    # and then a zone with daylight saving (both ends of the span in standard time): nothing computed for the first meter
+    # (day lengths, bin sizes) may be reused for the second
+    pairs = [("America/Phoenix", "America/Denver", "2019-02-15", 278), ("America/Regina", "America/Chicago", "2019-02-15", 278),
+             ("Australia/Brisbane", "Australia/Sydney", "2019-06-01", 364)]
+    for za, zb, d0, nd in (pairs[:1] + [rng.choice(pairs[1:])] if not thorough else pairs):
+        for tzname in (za, zb):
+            st = pd.Timestamp(d0, tz=tzname)
+            en = (pd.Timestamp(d0) + pd.Timedelta(days=nd)).tz_localize(tzname)
+            n_h = int((en - st) / pd.Timedelta(hours=1))
+            case = dict(kind="subdaily", tz=tzname, freq=60, start=st.isoformat(), n=n_h, values=[str(Fraction(rng.randrange(1, 64), 8)) for _ in range(n_h)],
+                        missing=[], how="nan", electric=True, entry="from_series", cls="baseline", gap_style="portfolio_sequence")
+            one_case(case, res, sigs, lines, metas)
     n = int((96 if not thorough else 1200) * scale)
     for i in range(n):
         gen = [gen_billing, gen_subdaily, gen_subdaily, gen_daily][i % 4] if i % 12 != 11 else gen_billing
